@@ -387,6 +387,7 @@ type FuncSpec struct {
 	Props       []string
 	Flags       map[string]bool
 	Requires    []*Clause
+	Assumes     []*Clause
 	Ensures     []*Clause
 	Modifies    []string // raw targets; nil = unspecified (treated as "*"), ["nothing"] = empty
 	HasMod      bool
@@ -400,13 +401,14 @@ type FuncSpec struct {
 }
 
 type SpecFunc struct {
-	Name   string
-	Params []QVar
-	Ret    string
-	Body   *SExpr
-	Text   string
-	Pkg    string
-	Rec    bool
+	Name     string
+	Params   []QVar
+	Ret      string
+	Body     *SExpr
+	Text     string
+	Pkg      string
+	Rec      bool
+	Uninterp bool
 }
 
 type TypeInv struct {
@@ -439,7 +441,7 @@ func newContracts() *Contracts {
 
 var clauseKeywords = map[string]bool{"requires": true, "ensures": true, "modifies": true, "preserves": true, "decreases": true,
 	"loop": true, "invariant": true, "assert": true, "func": true, "spec": true, "ghost": true, "axiom": true, "type": true,
-	"iface": true, "field": true, "end": true, "flags": true, "props": true, "lemma": true, "results": true, "global": true, "uses": true}
+	"iface": true, "field": true, "end": true, "flags": true, "props": true, "lemma": true, "results": true, "global": true, "uses": true, "ufun": true, "assumes": true}
 
 type rawLine struct {
 	text string
@@ -535,6 +537,16 @@ func parseContractText(c *Contracts, pkgPath, file string, lines []rawLine) erro
 				return fmt.Errorf("%s:%d: results outside func", file, s.line)
 			}
 			cur.ResultNames = strings.Fields(strings.ReplaceAll(rest, ",", " "))
+		case "assumes":
+			// an ownership / environment assumption: assumed by the function, NOT checked at call sites; reported in the evidence
+			if cur == nil {
+				return fmt.Errorf("%s:%d: assumes outside func", file, s.line)
+			}
+			cl, err := mkClause(kw, rest, s.line)
+			if err != nil {
+				return err
+			}
+			cur.Assumes = append(cur.Assumes, cl)
 		case "requires", "ensures", "decreases":
 			if cur == nil {
 				return fmt.Errorf("%s:%d: %s outside func", file, s.line, kw)
@@ -571,6 +583,21 @@ func parseContractText(c *Contracts, pkgPath, file string, lines []rawLine) erro
 				return fmt.Errorf("%s:%d: global needs a name: global name: expr", file, s.line)
 			}
 			c.Globals[pkgPath+"."+cl.Label] = cl
+			cur, curLoop, curType = nil, nil, nil
+		case "ufun":
+			// ufun name(p T, ...) R  -- uninterpreted specification function
+			lp, rp := strings.Index(rest, "("), strings.LastIndex(rest, ")")
+			if lp < 0 || rp < lp {
+				return fmt.Errorf("%s:%d: ufun header", file, s.line)
+			}
+			sf := &SpecFunc{Name: strings.TrimSpace(rest[:lp]), Ret: strings.TrimSpace(rest[rp+1:]), Text: rest, Pkg: pkgPath, Uninterp: true}
+			for _, ps := range splitTop(rest[lp+1 : rp]) {
+				f := strings.Fields(ps)
+				if len(f) >= 2 {
+					sf.Params = append(sf.Params, QVar{f[0], strings.Join(f[1:], "")})
+				}
+			}
+			c.Specs[sf.Name] = sf
 			cur, curLoop, curType = nil, nil, nil
 		case "uses":
 			if cur == nil {
